@@ -1053,3 +1053,16 @@ Proof.
   intros H Hn. destruct (wf_delivered n pre evs H) as [_ Hb]. destruct (delivered n pre evs) as [|[i o] D]; [reflexivity|].
   exfalso. specialize (Hb i (or_introl eq_refl)). lia.
 Qed.
+
+(* ---- SafeLink / Run / RunInline ------------------------------------------------------------------ *)
+Lemma runfn_done res : forall runs, runfn_run res runs (mkR (cell_of res) false 1) = mkR (cell_of res) false 1.
+Proof. induction runs as [|k IH]; cbn; [reflexivity|exact IH]. Qed.
+
+Lemma runfn_spec inline res runs :
+  runfn_run res runs (runfn_call inline res)
+  = if inline || (0 <? runs) then mkR (cell_of res) false 1 else mkR cempty true 0.
+Proof.
+  destruct inline; cbn.
+  - apply runfn_done.
+  - destruct runs as [|k]; cbn; [reflexivity|apply runfn_done].
+Qed.
